@@ -46,3 +46,60 @@ func VerifCustomFallbackPartitioner(rec *VerifRecordingPartitioner) Partitioner 
 	fb.random = rec
 	return NewCustomPartitioner(WithCustomFallbackPartitioner(fb))("t")
 }
+
+// VerifSetPart is one partition of a produce set as seen by a hook.
+type VerifSetPart struct {
+	Topic     string
+	Partition int32
+	Msgs      []*ProducerMessage
+	FirstSeq  int32
+}
+
+// VerifSetInfo reads a *produceSet (hook argument of bp.added / bp.bridge / bp.response).
+func VerifSetInfo(x interface{}) (pid int64, epoch int16, parts []VerifSetPart) {
+	ps, ok := x.(*produceSet)
+	if !ok || ps == nil {
+		return -1, -1, nil
+	}
+	for t, m := range ps.msgs {
+		for p, set := range m {
+			vp := VerifSetPart{Topic: t, Partition: p, Msgs: append([]*ProducerMessage(nil), set.msgs...), FirstSeq: -1}
+			if set.recordsToSend.RecordBatch != nil {
+				vp.FirstSeq = set.recordsToSend.RecordBatch.FirstSequence
+			}
+			parts = append(parts, vp)
+		}
+	}
+	return ps.producerID, ps.producerEpoch, parts
+}
+
+// VerifPSetMsgs reads a *partitionSet (hook argument of ap.retryBatch).
+func VerifPSetMsgs(x interface{}) []*ProducerMessage {
+	ps, ok := x.(*partitionSet)
+	if !ok || ps == nil {
+		return nil
+	}
+	return append([]*ProducerMessage(nil), ps.msgs...)
+}
+
+// VerifCommitBlocks reads an *OffsetCommitRequest (hook argument of om.built / om.resp).
+func VerifCommitBlocks(x interface{}) (blocks []VSimCommitBlock, ok bool) {
+	r, isReq := x.(*OffsetCommitRequest)
+	if !isReq || r == nil {
+		return nil, false
+	}
+	for t, ps := range r.blocks {
+		for p, b := range ps {
+			blocks = append(blocks, VSimCommitBlock{t, p, b.offset, b.metadata})
+		}
+	}
+	return blocks, true
+}
+
+// VerifBrokerID reads the id of a *Broker (hook argument of br.written).
+func VerifBrokerID(x interface{}) int32 {
+	if b, ok := x.(*Broker); ok && b != nil {
+		return b.id
+	}
+	return -1
+}
